@@ -51,6 +51,19 @@ Definition K_RESET := 40.
 Definition K_HPMCAP := 41. (* [HPM.1 version, capabilities, upgrade, selftest, rollback, inaccessibility timeout, components] *)
 Definition K_HPMSTAT := 42. (* [command in progress, last completion code] *)
 Definition K_SELFTEST := 43. (* [result 1, result 2] *)
+Definition K_PORT := 50.      (* a = interface, b = channel: [link info byte 0..3, state]; no link: [] *)
+Definition K_SIGCLASS := 51.  (* a = interface, b = channel: [signaling class] *)
+Definition K_PWRCHST := 52.   (* a = power channel: [status: b0 present, b1 MP enabled, b2 MP overcurrent, b3 ENABLE#, b4 PWR enabled, b5 PWR overcurrent, b6 PWR_ON] *)
+Definition K_PWRCHCTL := 53.  (* a = power channel: [current limit, primary PM, redundant PM] *)
+Definition K_PMGLOBAL := 54.  (* [max power channel number, global status] *)
+Definition K_HEARTBEAT := 55. (* [timeout, PS1] *)
+Definition K_AUTHCAP := 56.   (* a = channel: [auth type support, status, extended capabilities, OEM id x3, OEM aux] *)
+Definition K_ROLLBACK := 57.  (* [rollback status (, completion estimate)] *)
+Definition K_ROLLBACKREQ := 58.
+Definition K_DCMICAP := 60.   (* a = parameter selector: parameter data *)
+Definition K_DCMIPWR := 61.   (* power reading: current, min, max, average (2 each), timestamp, period (4 each), state *)
+Definition K_I2CMEM := 62.    (* a = bus byte, b = slave address byte: what the device returns *)
+Definition K_I2CW := 63.      (* a = bus byte, b = slave address byte: the last bytes written *)
 
 Definition zeros (n : nat) : list N := repeat 0 n.
 
@@ -83,6 +96,16 @@ Definition default (k : key) : list N :=
   else if kind =? K_HPMCAP then [1; 0x0f; 10; 20; 30; 40; 0x05]
   else if kind =? K_HPMSTAT then [0; 0]
   else if kind =? K_SELFTEST then [0x55; 0]
+  else if kind =? K_SIGCLASS then [0]
+  else if kind =? K_PWRCHST then [1]
+  else if kind =? K_PWRCHCTL then [0; 0; 0]
+  else if kind =? K_PMGLOBAL then [16; 6]
+  else if kind =? K_HEARTBEAT then [0; 0]
+  else if kind =? K_AUTHCAP then [0x97; 0; 3; 0; 0; 0; 0]
+  else if kind =? K_ROLLBACK then [0]
+  else if kind =? K_DCMICAP then [0; 1; 7]
+  else if kind =? K_DCMIPWR then [100; 0; 50; 0; 200; 0; 120; 0; 1; 2; 3; 4; 232; 3; 0; 0; 0x40]
+  else if kind =? K_I2CMEM then [0xa0; 0xa1; 0xa2; 0xa3; 0xa4; 0xa5; 0xa6; 0xa7]
   else [].
 
 Definition get (s : store) (k : key) : list N :=
@@ -104,6 +127,9 @@ Fixpoint merge_bits (n : nat) (old m v : N) : N :=
   | O => 0
   | S n' => (if m mod 2 =? 1 then v mod 2 else old mod 2) + 2 * merge_bits n' (old / 2) (m / 2) (v / 2)
   end.
+
+(* bit i of x set to v (0 / 1) *)
+Definition setbit (x i v : N) : N := x - bit x i * 2 ^ i + v * 2 ^ i.
 
 Definition set_nth_b (i : nat) (v : N) (l : list N) : list N :=
   firstn i l ++ [v] ++ skipn (S i) l.
@@ -162,6 +188,13 @@ Definition h_app (s : store) (cmd lun : N) (d : list N) : store * reply :=
               | None => 0
               end in
     ok s [10; enabled_count s + 64 * st; 1; at_ a 0 + at_ a 1]
+  else if cmd =? 0x38 then                              (* Get Channel Authentication Capabilities *)
+    if negb (longer d 2) then cc s 0xc7 else
+    let ch := at_ d 0 mod 16 in ok s (ch :: get s (K_AUTHCAP, ch, 0))
+  else if cmd =? 0x52 then                              (* Master Write-Read *)
+    if negb (longer d 3) then cc s 0xc7 else
+    let s1 := match skipn 3 d with [] => s | w => put s (K_I2CW, at_ d 0, at_ d 1) w end in
+    ok s1 (firstn (N.to_nat (at_ d 2)) (get s (K_I2CMEM, at_ d 0, at_ d 1)))
   else cc s 0xc1.
 
 Definition h_chassis (s : store) (cmd lun : N) (d : list N) : store * reply :=
@@ -261,6 +294,43 @@ Definition h_picmg (s : store) (cmd lun : N) (d : list N) : store * reply :=
   else if cmd =? 0x2e then ok s (0 :: get s (K_HPMCAP, 0, 0))     (* HPM.1 Get Target Upgrade Capabilities *)
   else if cmd =? 0x34 then ok s (0 :: get s (K_HPMSTAT, 0, 0))    (* HPM.1 Get Upgrade Status *)
   else if cmd =? 0x36 then ok s (0 :: get s (K_SELFTEST, 0, 0))   (* HPM.1 Query Selftest Results *)
+  else if cmd =? 0x37 then ok s (0 :: get s (K_ROLLBACK, 0, 0))   (* HPM.1 Query Rollback Status *)
+  else if cmd =? 0x38 then ok (put s (K_ROLLBACKREQ, 0, 0) [1]) [0]   (* HPM.1 Initiate Manual Rollback *)
+  else if cmd =? 0x0e then                              (* Set Port State: link info (4 bytes), state *)
+    if negb (Nat.eqb (length d) 6) then cc s 0xc7 else
+    ok (put s (K_PORT, at_ d 1 / 64, at_ d 1 mod 64) [at_ d 1; at_ d 2; at_ d 3; at_ d 4; at_ d 5]) [0]
+  else if cmd =? 0x0f then                              (* Get Port State *)
+    if negb (longer d 2) then cc s 0xc7 else ok s (0 :: get s (K_PORT, at_ d 1 / 64, at_ d 1 mod 64))
+  else if cmd =? 0x3b then                              (* Set Channel Signaling Class *)
+    if negb (longer d 3) then cc s 0xc7 else
+    ok (put s (K_SIGCLASS, at_ d 1 / 64, at_ d 1 mod 64) [at_ d 2 mod 16]) [0]
+  else if cmd =? 0x3c then                              (* Get Channel Signaling Class *)
+    if negb (longer d 2) then cc s 0xc7 else
+    ok s [0; at_ d 1; at_ (get s (K_SIGCLASS, at_ d 1 / 64, at_ d 1 mod 64)) 0]
+  else if cmd =? 0x24 then                              (* Power Channel Control *)
+    if negb (Nat.eqb (length d) 6) then cc s 0xc7 else
+    let st := at_ (get s (K_PWRCHST, at_ d 1, 0)) 0 in
+    let c := at_ d 2 in
+    if 5 <? c then cc s 0xcc else
+    let st' := if c =? 0 then setbit st 1 0 else if c =? 1 then setbit st 1 1
+               else if c =? 2 then setbit st 3 0 else if c =? 3 then setbit st 3 1
+               else if c =? 4 then setbit st 4 0 else setbit st 4 1 in
+    ok (put (put s (K_PWRCHST, at_ d 1, 0) [st']) (K_PWRCHCTL, at_ d 1, 0) [at_ d 3; at_ d 4; at_ d 5]) [0]
+  else if cmd =? 0x25 then                              (* Get Power Channel Status *)
+    if negb (longer d 3) then cc s 0xc7 else
+    if 16 <? at_ d 2 then cc s 0xc9 else
+    ok s (0 :: get s (K_PMGLOBAL, 0, 0) ++
+          map (fun i => at_ (get s (K_PWRCHST, at_ d 1 + N.of_nat i, 0)) 0) (seq 0 (N.to_nat (at_ d 2))))
+  else if cmd =? 0x28 then                              (* PM Heartbeat *)
+    if negb (longer d 3) then cc s 0xc7 else ok (put s (K_HEARTBEAT, 0, 0) [at_ d 1; at_ d 2]) [0]
+  else cc s 0xc1.
+
+(* DCMI (group extension DCh) *)
+Definition h_dcmi (s : store) (cmd lun : N) (d : list N) : store * reply :=
+  if cmd =? 0x01 then                                   (* Get DCMI Capabilities Info *)
+    if negb (longer d 2) then cc s 0xc7 else ok s ([0xdc; 1; 5; 2] ++ get s (K_DCMICAP, at_ d 1, 0))
+  else if cmd =? 0x02 then                              (* Get Power Reading *)
+    if negb (longer d 4) then cc s 0xc7 else ok s (0xdc :: get s (K_DCMIPWR, 0, 0))
   else cc s 0xc1.
 
 Definition bmc_handle : device store := fun s r =>
@@ -269,5 +339,7 @@ Definition bmc_handle : device store := fun s r =>
   else if nf =? 0x00 then h_chassis s (q_cmd r) (q_lun r) (q_data r)
   else if nf =? 0x04 then h_sensor s (q_cmd r) (q_lun r) (q_data r)
   else if nf =? 0x0c then h_transport s (q_cmd r) (q_lun r) (q_data r)
-  else if nf =? 0x2c then h_picmg s (q_cmd r) (q_lun r) (q_data r)
+  else if nf =? 0x2c then
+    (if at_ (q_data r) 0 =? 0xdc then h_dcmi s (q_cmd r) (q_lun r) (q_data r)
+     else h_picmg s (q_cmd r) (q_lun r) (q_data r))
   else cc s 0xc1.
